@@ -187,7 +187,6 @@ Proof.
 Qed.
 
 (* ---------- 5. events scheduled up front run exactly once each, in key order ---------- *)
-Definition due (dead : list Z) (endt : Z) (e : event) : bool := runnable dead e && (e_time e <=? endt).
 
 Lemma filter_due_cancelled : forall dead endt l, Forall (fun x => e_cancelled x = true) l ->
   filter (due dead endt) l = [].
